@@ -11,6 +11,7 @@
 #include <cctype>
 #include <chrono>
 #include <fstream>
+#include <deque>
 #include <functional>
 #include <iostream>
 #include <memory>
@@ -876,10 +877,40 @@ protected:
         ::iora::verif::httpRequestFramed(sid, requestData);
       }
 #endif
+      // Requests of one connection are handled one at a time, in arrival order, so
+      // that pipelined responses leave in request order (RFC 7230 section 6.3.2):
+      // while one is in flight the next ones wait in the session record.
+      bool overflow = false;
+      {
+        std::lock_guard<std::mutex> lock(_sessionMutex);
+        auto it = _sessionInfo.find(sid);
+        if (it != _sessionInfo.end())
+        {
+          if (it->second.requestInFlight)
+          {
+            if (it->second.pendingRequests.size() >= MAX_PENDING_REQUESTS)
+            {
+              overflow = true;
+            }
+            else
+            {
+              it->second.pendingRequests.push_back(requestData);
+              continue;
+            }
+          }
+          else
+          {
+            it->second.requestInFlight = true;
+          }
+        }
+      }
       // Process request in thread pool to avoid blocking transport
       // Use tryEnqueue for backpressure - reject requests if queue is full
-      if (!_threadPool.tryEnqueue([this, sid, requestData]()
-                                  { processHttpRequest(sid, requestData); }))
+      if (overflow || !_threadPool.tryEnqueue([this, sid, requestData]()
+                                  {
+                                    processHttpRequest(sid, requestData);
+                                    onRequestFinished(sid);
+                                  }))
       {
         // Thread pool is overloaded, send 503 Service Unavailable
         iora::core::Logger::warning(
@@ -900,6 +931,36 @@ protected:
           "active threads: " + std::to_string(_threadPool.getActiveThreadCount()) + "/" +
           std::to_string(_threadPool.getTotalThreadCount()) + ")");
       }
+    }
+  }
+
+  /// \brief The request in flight on this connection is done: start the next
+  /// pipelined one, if any (runs on the worker that finished the request).
+  void onRequestFinished(SessionId sid)
+  {
+    std::string next;
+    {
+      std::lock_guard<std::mutex> lock(_sessionMutex);
+      auto it = _sessionInfo.find(sid);
+      if (it == _sessionInfo.end())
+      {
+        return;
+      }
+      if (it->second.pendingRequests.empty())
+      {
+        it->second.requestInFlight = false;
+        return;
+      }
+      next = std::move(it->second.pendingRequests.front());
+      it->second.pendingRequests.pop_front();
+    }
+    if (!_threadPool.tryEnqueue([this, sid, next]()
+                                {
+                                  processHttpRequest(sid, next);
+                                  onRequestFinished(sid);
+                                }))
+    {
+      sendErrorResponse(sid, 503, "Service Unavailable", "Server overloaded - please retry later");
     }
   }
 
@@ -2140,6 +2201,10 @@ private:
     std::uint16_t peerPort = 0;
     bool connectionKeepAlive = true;
     std::string httpVersion = "1.1"; // Default to HTTP/1.1
+
+    // Pipelining: complete requests waiting for the one in flight (arrival order)
+    std::deque<std::string> pendingRequests;
+    bool requestInFlight = false;
 
     // Buffer management constants
     static constexpr std::size_t MAX_BUFFER_SIZE = 1024 * 1024;    // 1MB max per session
